@@ -13,8 +13,12 @@
    records one event per call.
    TLC also enumerates CALL HISTORIES (Decode, then every sequence of Fix / Put / Components / Encode /
    Decode on sets with composite glyphs, incl. Fix;Fix on one glyph with two maps, Fix;Components,
-   Fix;Encode); the harness replays them and re-observes after every call the whole glyph set, all
-   Components() lists and all earlier FixComponents results (GlyfTrace: nothing the caller holds changes).
+   Fix;Encode, Encode;Encode-of-the-reversed-set); the harness replays them and re-observes after every call
+   the whole glyph set, all Components() lists, all earlier FixComponents results and all Encode results
+   handed out (bytes, and a fresh Decode of them) -- GlyfTrace: nothing the caller holds changes.  A writer
+   whose results share one buffer is a must-fail configuration of Glyf.tla (HistInv must be violated).
+   The count maxima (65535/65536 points, instructionLength 0xFFFF, 600 components; thorough: 32767
+   contours) are printed by TLC in every run.
 3. V: glyph sets built through the library API (up to > 128 KiB; exactly 65534 and 65535 glyphs; glyf tables
    beyond 2^24 bytes in digest mode, where TLC recomputes every offset from the raw loca bytes) go through
    Glyphs.Encode -> glyf.Decode -> per-glyph calls, recorded the same way.
@@ -59,14 +63,15 @@ CALLS = {"decode": "glyf.Decode", "encode": "Glyphs.Encode", "simple": "SimpleGl
 
 
 def _cfg(kind, salt, runs=0, comps=0, glyphs=0, steps=0, full=True, with256=False, targets=(), invs=None,
-         view=False):
+         view=False, shared=False):
     invs = invs or ["EncodeDecode", "PointsMeaning", "LocaInv", "Emit"]
     return ("CONSTANTS\n  Kind = \"%s\"\n  Salt = %d\n  MaxRuns = %d\n  MaxComps = %d\n  MaxGlyphs = %d\n"
-            "  MaxSteps = %d\n  FinishFull = %s\n  With256 = %s\n  Targets = {%s}\nINIT Init\nNEXT Next\n%s%s"
+            "  MaxSteps = %d\n  FinishFull = %s\n  With256 = %s\n  Targets = {%s}\n  SharedBuf = %s\n"
+            "INIT Init\nNEXT Next\n%s%s"
             "CHECK_DEADLOCK FALSE\n" % (
                 kind, salt, runs, comps, glyphs, steps, "TRUE" if full else "FALSE",
                 "TRUE" if with256 else "FALSE", ", ".join(str(t) for t in targets),
-                "VIEW view\n" if view else "",
+                "TRUE" if shared else "FALSE", "VIEW view\n" if view else "",
                 "".join("INVARIANT %s\n" % i for i in invs)))
 
 
@@ -96,6 +101,17 @@ def _model(ctx, label, cfgtext, workers, timeout):
     if not res.ok:
         raise vlib.Infra("Glyf.tla (%s) violates %s on the model -- the spec is wrong, not the code:\n%s"
                          % (label, res.violated, res.error_text[:1500]))
+    return res
+
+
+def _must_fail(ctx, label, cfgtext, workers, timeout):
+    """The wrong design (all Encode results share one buffer) must be refuted by TLC: the invariant bites."""
+    res = ctx.tlc("Glyf", cfg="GlyfF.cfg", files={"GlyfF.cfg": cfgtext}, workers=workers, timeout=timeout,
+                  count=False, label=label)
+    if res.violated != "HistInv":
+        raise vlib.Infra("HistInv does not refute a writer with a shared scratch buffer (got %s) -- the "
+                         "invariant is vacuous" % res.violated)
+    res.violated = None      # expected
     return res
 
 
@@ -266,10 +282,12 @@ def run(ctx):
     w_model = max(1, ctx.workers // 2)
 
     # ---- 1. the design: exhaustive model checking; 2. generation -- all TLC runs concurrently
-    model_invs = ["EncodeDecode", "LocaInv", "RoundTrip", "FixInv"]
+    model_invs = ["EncodeDecode", "LocaInv", "RoundTrip", "FixInv", "HistInv"]
     jobs = {}
     jobs["model"] = pool.submit(_model, ctx, "Glyf model: palette sets, all writer choices",
                                 _cfg("set", salt, glyphs=ctx.pick(2, 3), steps=4, invs=model_invs, view=True), w_model, 1500)
+    jobs["mustfail"] = pool.submit(_must_fail, ctx, "Glyf with a shared Encode buffer (must violate HistInv)",
+                                   _cfg("ops", salt, steps=4, invs=["HistInv"], shared=True), 2, 900)
     jobs["loca"] = pool.submit(_model, ctx, "Glyf loca layout at 64K/128K boundaries",
                                _cfg("loca", salt, glyphs=ctx.pick(4, 5), invs=["LocaLayout"]), 2, 900)
     gens = [
@@ -282,7 +300,11 @@ def run(ctx):
         ("set-sim", _cfg("set", salt, glyphs=ctx.pick(4, 6)), ctx.pick(120, 1500), 12, 100),
         # call histories: Decode, then every sequence of Fix / Put / Components / Encode / Decode
         ("ops", _cfg("ops", salt, steps=ctx.pick(4, 5),
-                     invs=["EncodeDecode", "LocaInv", "RoundTrip", "FixInv", "EmitOps"]), None, None, 300),
+                     invs=["EncodeDecode", "LocaInv", "RoundTrip", "FixInv", "HistInv", "EmitOps"]), None, None, 300),
+        # the count maxima of the format: 65535 / 65536 points, instructionLength 0xFFFF, 600 components
+        # (thorough: numberOfContours 32767)
+        ("max", _cfg("max", salt, targets=ctx.pick((65535, 65536, 1, 2), (65535, 65536, 1, 2, 32767)),
+                     invs=["EncodeDecode", "LocaInv", "Emit"]), None, None, 4),
         ("big", _cfg("big", salt, targets=ctx.pick((131070, 131072),
                                                   (65534, 65536, 131068, 131070, 131072, 131074, 200000))),
          None, None, 3),
@@ -308,8 +330,12 @@ def run(ctx):
         "model": "glyph sets of 1..%d glyphs over a 9-glyph palette x padding 0..3 x loca version, then up to 4 API "
                  "calls (Decode / Encode pad 2|4, version 0|1 / FixComponents / Put)" % ctx.pick(2, 3),
         "call histories": "3 glyph sets with composite glyphs: Decode, then every sequence of %d calls out of "
-                          "Fix(i, 2 maps) / Put / Components(i) / Encode / Decode; everything re-observed after "
-                          "every call" % ctx.pick(3, 4),
+                          "Fix(i, 2 maps) / Put / Components(i) / Encode / Encode of the reversed set / Decode; after "
+                          "every call the glyph set, all Fix results and all Encode results handed out (bytes and a "
+                          "fresh Decode) are re-observed; a writer with a shared buffer is refuted by TLC (HistInv)"
+                          % ctx.pick(3, 4),
+        "maxima": "65535 and 65536 points, instructionLength 0xFFFF, 600 components"
+                  + ("" if quick else ", numberOfContours 32767"),
         "loca": "size vectors of length <= %d over {0,2,12,65522,65534,65536,131058,131070,131072,16777204,"
                 "16777216}" % ctx.pick(4, 5),
         "library-built sets": "incl. exactly 65534 and 65535 glyphs and glyf tables of about 1.2 MB and 16.8 MB "
@@ -350,6 +376,8 @@ def run(ctx):
     #      cases share the chunks: every case names its source)
     def weight(c):
         if c["src"] == "tlc":
+            if c.get("gen") == "max":
+                return 3000000
             return 400 + len(c["glyf"]) * 6 * (1 + len(c.get("ops") or []))
         if c["lib"]["sparse"]:
             return 20000 + c["lib"]["n"] * 30
